@@ -436,3 +436,24 @@ package diff
 //@ props C15
 //@ trusted
 //@ modifies nothing
+
+//@ func schemaLocationKey
+//@ props C12
+//@ pure
+//@ requires location.Node != nil
+//@ ensures location.Node.ChildNode != nil && location.Node.ChildNode.IsArray ==> result == location.Method+location.URL+location.Node.Field+location.Node.TypeName+location.Node.ChildNode.Field+location.Node.ChildNode.TypeName
+//@ ensures !(location.Node.ChildNode != nil && location.Node.ChildNode.IsArray) ==> result == location.Method+location.URL+location.Node.Field+location.Node.TypeName
+
+//@ func getParams
+//@ props C12 C13 C14
+//@ safety
+//@ modifies nothing
+//@ ensures result != nil && vs_fresh(result)
+//@ ensures vs_all(func(n string) bool { return vs_has(result, n) == (vs_paramAt(opParams, len(opParams), location, n) || vs_paramAt(pathParams, len(pathParams), location, n)) })
+//@ ensures vs_all(func(j int) bool { return 0 <= j && j < len(opParams) && opParams[j].In == location && !vs_paramAfter(opParams, j, location, opParams[j].Name) ==> vs_eq(result[opParams[j].Name], opParams[j]) })
+//@ ensures vs_all(func(j int) bool { return 0 <= j && j < len(pathParams) && pathParams[j].In == location && !vs_paramAfter(pathParams, j, location, pathParams[j].Name) && !vs_paramAt(opParams, len(opParams), location, pathParams[j].Name) ==> vs_eq(result[pathParams[j].Name], pathParams[j]) })
+//@ loop 1 invariant params != nil && vs_fresh(params) && vs_all(func(n string) bool { return vs_has(params, n) == vs_paramAt(pathParams, vs_done(1), location, n) })
+//@ loop 1 invariant vs_all(func(j int) bool { return 0 <= j && j < vs_done(1) && pathParams[j].In == location && !vs_paramBetween(pathParams, j, vs_done(1), location, pathParams[j].Name) ==> vs_eq(params[pathParams[j].Name], pathParams[j]) })
+//@ loop 2 invariant params != nil && vs_fresh(params) && vs_all(func(n string) bool { return vs_has(params, n) == (vs_paramAt(opParams, vs_done(2), location, n) || vs_paramAt(pathParams, len(pathParams), location, n)) })
+//@ loop 2 invariant vs_all(func(j int) bool { return 0 <= j && j < vs_done(2) && opParams[j].In == location && !vs_paramBetween(opParams, j, vs_done(2), location, opParams[j].Name) ==> vs_eq(params[opParams[j].Name], opParams[j]) })
+//@ loop 2 invariant vs_all(func(j int) bool { return 0 <= j && j < len(pathParams) && pathParams[j].In == location && !vs_paramAfter(pathParams, j, location, pathParams[j].Name) && !vs_paramAt(opParams, vs_done(2), location, pathParams[j].Name) ==> vs_eq(params[pathParams[j].Name], pathParams[j]) })
